@@ -645,7 +645,7 @@ def expr_loads(f, o, limit=200):
         if ins.op == "load":
             out.append(ins)
             continue
-        if ins.op in ("call", "alloca"):
+        if ins.op == "alloca" or (ins.op == "call" and not (ins.callee or "").startswith(("llvm.fmuladd", "llvm.fabs", "llvm.sqrt", "llvm.fma"))):
             continue
         for y in all_operands(ins):
             work.append(y)
@@ -664,7 +664,7 @@ def expr_insts(f, o, through_loads=False, through_calls=False, limit=400):
         seen[x[1]] = ins
         if ins.op == "load" and not through_loads:
             continue
-        if ins.op == "call" and not through_calls:
+        if ins.op == "call" and not through_calls and not (ins.callee or "").startswith(("llvm.fmuladd", "llvm.fabs", "llvm.sqrt", "llvm.fma")):
             continue
         if ins.op == "alloca":
             continue
